@@ -12,7 +12,10 @@ package refcount
 // Ghost: downer(ch) the RefCount, dpred(ch) the channel it waits for, drun(ch) the goroutine itself.
 //   D1  a doneCh is closed only after the channel it waited for was closed (and only by its own goroutine)
 //   callback 1 in resolve: the resolver is called only after the predecessor's doneCh is closed
-//   r.waitCh always is the doneCh of the most recently started resolve goroutine (it is never cleared)
+//   HD  r.waitCh is the doneCh of the most recently started resolve goroutine (ghost dlast) unless that one is
+//       already closed: the head of the chain is never lost; go 1 in startResolveLocked: the new goroutine is
+//       given the head
+//   N6  the resolver's context derives from the current context (a context change restarts resolution)
 // so closed(ch) implies that goroutine ch and all earlier ones have left the resolver.
 //
 //@ ghostmap downer: ref -> ref once
@@ -26,7 +29,10 @@ package refcount
 //@   lock mtx
 //@   guarded ctx, refs, resolveCtx, resolveCtxCancel, nonce, waitCh, resolved, value, valueErr, valueRel
 //@   immutable keepUnref, target, targetErr, resolver
+//@   ghost dlast: ref
 //@   inv N0[C09]: this.refs != nil && this.resolver != nil
+//@   inv HD[C09]: this.dlast == nil || this.waitCh == this.dlast || closed(this.dlast)
+//@   inv N6: this.resolveCtx != nil ==> this.ctx != nil && ctxparent(this.resolveCtx) == this.ctx
 //@   inv N1[C09]: this.waitCh != nil ==> downer(this.waitCh) == this
 //@   inv N4[C09]: forall k: *Ref {in(this.refs, k)} :: in(this.refs, k) ==> k != nil
 //@   inv N5[C09]: this.ctx != nil && len(this.refs) > 0 && !this.resolved ==> this.resolveCtx != nil
@@ -87,6 +93,7 @@ package refcount
 //@   opt frame = skip
 //@   requires r != nil
 //@   opt leaves = N5
+//@   opt breaks = N6
 //@   assert callback valueRel: gone: !r.resolved && r.value == zero() && r.valueErr == nil
 //@   ensures cleared: !r.resolved && r.valueRel == nil && r.resolveCtx == nil && r.resolveCtxCancel == nil
 //@   ensures keeprefs: r.refs == old(r.refs) && len(r.refs) == old(len(r.refs)) && r.ctx == old(r.ctx) && r.nonce == old(r.nonce) && r.waitCh == old(r.waitCh)
@@ -95,7 +102,7 @@ package refcount
 //@   props C08 C09 C13
 //@   opt holds = mtx
 //@   opt frame = skip
-//@   opt leaves = N5 V1
+//@   opt leaves = N5 V1 N6
 //@   requires r != nil
 //@   loop 1 invariant mine: forall ch: ref {drun(ch)} :: old(drun(ch)) == me ==> drun(ch) == me && dpred(ch) == old(dpred(ch))
 //@   ensures mine: forall ch: ref {drun(ch)} :: old(drun(ch)) == me ==> drun(ch) == me && dpred(ch) == old(dpred(ch))
@@ -106,9 +113,11 @@ package refcount
 //@   props C08 C09 C13
 //@   opt holds = mtx
 //@   opt frame = skip
-//@   opt breaks = N5
+//@   opt breaks = N5 N6
 //@   requires r != nil
 //@   ensures bumped: r.nonce != old(r.nonce)
+//@   assert go 1: chain: waitCh == r.dlast || r.dlast == nil || closed(r.dlast)
+//@   ghost go 1: r.dlast := doneCh
 //@   ghost go 1: downer(doneCh) := r
 //@   ghost go 1: drun(doneCh) := me
 //@   ghost go 1: dpred(doneCh) := waitCh
